@@ -504,3 +504,64 @@ class IdWrapLayer:
 
 
 PROPS['C11']['layers'].append(IdWrapLayer())
+
+
+class StdioLayer:
+    """C09 (write side) for the `--stdio` client, whose input and output are two different descriptors: the real powermand.c is
+    started with --stdio on simulated descriptors 1000 (in) / 1001 (out) and compared pass by pass with Pm.Daemon.Stdio
+    (daemonPassIO); on runs without injected faults the client can only end by its own `quit`, and then everything the daemon
+    ever queued for it must have been written to the output descriptor, ending with the farewell."""
+    name = 'daemon-stdio'
+
+    def build(self): daemon.build()
+
+    def _one(self, a):
+        seed, N, faults = a
+        sim = daemon.simulate_stdio(seed, N, faults)
+        chunks = daemon.lean_side(sim)
+        diffs = daemon.compare(sim, chunks)
+        for d in diffs: d['replay'] = dict(layer=self.name, seed=seed, N=N, faults=faults, at=d['at'])
+        V = []; st = collections.Counter()
+        out = b''.join(bytes.fromhex(l.split()[3]) for co in sim['couts'] for l in co if l.startswith('Y write %d ' % daemon.STDIO_OUT) and l.split()[3] != '-')
+        st['runs'] += 1; st['passes'] += len(sim['ops'])
+        st['runs that ended with the daemon leaving its loop'] += 1 if sim['done'] else 0
+        st['runs without injected faults'] += 1 if sim['clean'] else 0
+        st['final flushes larger than what the descriptor could take at once (write would sleep)'] += sum(1 for co in sim['couts'] for l in co if l.startswith('Y write %d ' % daemon.STDIO_OUT) and l.endswith('BLOCKS'))
+        st['bytes delivered to the client: ' + ('< 1 KiB' if len(out) < 1024 else '< 16 KiB' if len(out) < 16384 else '>= 16 KiB')] += 1
+        if any(l.startswith('Y write %d ' % daemon.STDIO_IN) for co in sim['couts'] for l in co):
+            V.append(dict(sig='C09 output for the --stdio client was written to its input descriptor', at=len(sim['ops']) - 1))
+        if sim['died'] and not diffs:
+            V.append(dict(sig='C09 daemon killed in --stdio mode: ' + daemon.death_class(sim['stderr']), at=len(sim['ops']) - 1, detail=sim['stderr'][-800:]))
+        if sim['clean'] and sim['done'] and not sim['died']:
+            st['clean runs checked for a complete output stream'] += 1
+            if not out.endswith(b'101 Goodbye\r\n'):
+                V.append(dict(sig='C09 output queued for the --stdio client was lost when it quit: the stream delivered to its output descriptor does not end with the farewell',
+                              at=len(sim['ops']) - 1, delivered=len(out), tail=out[-60:].decode('latin1')))
+        for v in V: v['replay'] = dict(layer=self.name, seed=seed, N=N, faults=faults)
+        return dict(diffs=diffs, V=V, st=st, sample=dict(seed=seed, passes=len(sim['ops']), delivered=len(out), ended=sim['done']))
+
+    def run(self, prop, tier, seed):
+        self.build()
+        n = dict(quick=48, thorough=600, widen=200).get(tier, 48)
+        jobs = [(seed * 100000 + k, 30 if k % 3 else 60, 0.0 if k % 2 == 0 else 0.15) for k in range(n)]
+        res = pmap(self._one, jobs)
+        st = collections.Counter(); diffs = []; V = []
+        for r in res: st.update(r['st']); diffs += r['diffs']; V += r['V']
+        return dict(name=self.name, evaluations=st['passes'], distinct=st['passes'], samples=[r['sample'] for r in res[:3]], stats=dict(st), diffs=diffs, violations=V,
+                    rule='one evaluation = one pass of the real powermand.c in --stdio mode (client.c: _create_client_stdio, cli_pre_poll / cli_post_poll with ofd, _handle_write, _destroy_client, cli_server_done) compared line by line with Pm.Daemon.Stdio.daemonPassIO; half of the runs inject descriptor faults')
+
+    def replay(self, rp, v):
+        sim = daemon.simulate_stdio(rp['seed'], rp['N'], rp['faults'])
+        chunks = daemon.lean_side(sim)
+        at = rp.get('at', len(sim['ops']) - 1)
+        for i in range(max(0, at - 1), min(len(sim['ops']), at + 1)):
+            print('--- pass', i, sim['ops'][i][:400])
+            print('  C   :', *[l[:300] for l in sim['couts'][i]], sep='\n      ')
+            print('  Lean:', *[l[:300] for l in (chunks[i] if i < len(chunks) else ['<missing>'])], sep='\n      ')
+        diffs = daemon.compare(sim, chunks)
+        for d in diffs: print('DIFF', json.dumps(d, default=str)[:1200])
+        return 1 if diffs or sim['died'] else 0
+
+
+PROPS['C09']['layers'].append(StdioLayer())
+PROPS['C09']['refines'] = [(r'^Y write 1\d\d\d ', "what is handed to a client's output descriptor is not what C09 prescribes for this input: the queue is delivered exactly once and in order (C09_stdio_conserve, C09_write_*), and the final flush of a client that quit hands over the whole queue (C09_stdio_quit_flush)")]
